@@ -347,7 +347,7 @@ def process_ob(b, ob, log, seed, replay_dir, prop=None):
     # translation validation on this harness (native differential), only when the main query was decided
     return rec
 
-def find_passing_input(b, ob, log, seed, tries=3000, budget_s=40):
+def find_passing_input(b, ob, log, seed, tries=6000, budget_s=75):
     """pseudo-random native runs of the harness (real code); returns the drawn values of the first run that passes all
     assumptions and reaches the end of the harness, or None"""
     eg, er = native_exes(b, ob, log)
@@ -359,7 +359,7 @@ def find_passing_input(b, ob, log, seed, tries=3000, budget_s=40):
         env['ASAN_OPTIONS'] = 'detect_leaks=0'
         try: r = subprocess.run([er], stdout=subprocess.PIPE, stderr=subprocess.PIPE, text=True, env=env, timeout=20, errors='replace')
         except subprocess.TimeoutExpired: continue
-        if r.returncode == 0 and 'DONE' in r.stdout:
+        if r.returncode == 0 and 'DONE' in r.stdout and 'WITNESS-POINT' in r.stdout:   # a run that ends without passing a witness point proves nothing
             return [int(l, 16) for l in open(dump) if l.strip()]
     return None
 
